@@ -624,13 +624,19 @@ func TestC20(t *testing.T) {
 			}
 		}
 		c.S = map[string]string{"x": "urn:x", "y": "urn:y"}
-		c.V = map[string]string{"val": []string{"1", "x y", "é"}[rapid.IntRange(0, 2).Draw(t, "varVal")], "x:nv": "2"}
+		// -v binds STRINGS, exactly as given (numeral-looking or blank-padded values included)
+		c.V = map[string]string{"val": []string{"1", "x y", "é", "007", "1.50", " b ", "0", " 12 ", "", "false", "a=b"}[rapid.IntRange(0, 10).Draw(t, "varVal")], "x:nv": "2"}
 		exprs := []string{"/*", "//a", "//b", "//*", "//text()", "//@*", "count(//*)", "string(//a)", "//a = $val", "//*[. = $val]", "//x:*", "//y:a",
 			"name(/*)", "//comment()", "//processing-instruction()", "/", "//a/..", "//namespace::node()", "boolean(//b)", "concat($val, $x:nv)", "//*[@id]", "//a/ancestor::*", "/nosuch", "//c | //a",
-			"/#obj", "//#arr/text()", "//p", "//*[text()]", "sum(//a)", "substring('é€x', 2)", "$val", "1 div 0", "//*[contains(., 'ACME')]", "string(/*)"}
+			"/#obj", "//#arr/text()", "//p", "//*[text()]", "sum(//a)", "substring('é€x', 2)", "$val", "1 div 0", "//*[contains(., 'ACME')]", "string(/*)",
+			"string-length($val)", "concat('[', $val, ']')", "//*[$val]", "boolean($val)", "$val = 7", "//*[. = $val]/..", "concat($x:nv, '|', string-length($x:nv))"}
 		c.Expr = exprs[rapid.IntRange(0, len(exprs)-1).Draw(t, "expr")]
 		if len(c.Args) == 0 {
 			c.Args = []string{c.Files[0].Path}
+		}
+		// the arguments in any order (stdin first, in the middle or last)
+		if len(c.Args) > 1 && rapid.Bool().Draw(t, "shuffleArgs") {
+			c.Args = rapid.Permutation(c.Args).Draw(t, "argOrder")
 		}
 		// other spellings of the same arguments
 		for i, a := range c.Args {
